@@ -103,39 +103,29 @@ def run(ctx):
     # ---------------- R2 selection
     np_ = ctx.body(NP)
     k = T("param", 2, np_.dbg.get(2, ""))
-    sel = None
-    for h in sorted(np_.loops()):
-        el = tables.exists_loop(np_, h)
-        if el.problems or not isinstance(el.iter_term, tuple) or el.iter_term[0] != "iter":
-            continue
-        base = el.iter_term[1]
+    sels = [s_ for s_ in ktloops.selections(ctx, np_, ANM, 2)]
+    sites = {(s_.form, s_.site) for s_ in sels}
+    okfound = len(sites) == 1 and not any(s_.problems for s_ in sels)
+    ck.ob("C03-R2", NP, "group-lookup-loop-found", okfound, detail=None if okfound else "%d selection sites; %s" % (len(sites), [s_.problems[:1] for s_ in sels]))
+    # (a find() whose closure captures a branch-dependent value shows up once per branch: every variant is checked)
+    for sl in (sels if okfound else []):
+        base = sl.iter_term[1] if isinstance(sl.iter_term, tuple) and sl.iter_term[0] == "iter" else None
+        getcall = None
         if isinstance(base, tuple) and base[0] == "field" and isinstance(base[1], tuple) and base[1][0] == "variant" and base[1][2] == "Some" \
                 and isinstance(base[1][1], tuple) and base[1][1][0] == "call" and method_name(base[1][1][1]) == "get" and "HashMap" in base[1][1][1]:
-            sel = (h, el, base[1][1])
-    ck.ob("C03-R2", NP, "group-lookup-loop-found", sel is not None)
-    if sel:
-        h, el, getcall = sel
-        ck.ob("C03-R2", NP, "group-looked-up-by-the-pressed-key", mir.strip(getcall[2][1]) == k and isinstance(getcall[2][0], tuple) and getcall[2][0][0] == "field" and getcall[2][0][2] == "mappings",
-              detail=show(getcall)[:100])
-        ck.ob("C03-R2", NP, "group-scanned-in-reverse(last-listed-first)", el.iter_term[2] == "rev", detail="direction %s" % el.iter_term[2])
-        elem = None
-        fires = 0
-        for p in mir.walk_loop_only(np_, h):
-            calls = [e for e in p.events if e.kind == "call" and e.a == ANM]
-            sup = [e for e in p.events if e.kind == "guard" and isinstance(e.a, tuple) and e.a[0] == "call" and e.a[1] == MOD + "is_supported"]
-            if calls:
-                fires += 1
-                ok = (len(calls) == 1 and len(sup) == 1 and sup[0].b is True and p.outcome != ("backedge", h)
-                      and p.events.index(sup[0]) < p.events.index(calls[0]))
-                a = sup[0].a[2] if sup else None
-                mp = mir.strip(calls[0].b[2])
-                argok = a is not None and mir.strip(a[0]) == T("field", mp, "from") and list_of(a[1]) == "IP" and mir.strip(a[3]) == k and isinstance(mp, tuple) and mp[0] == "elem"
-                ck.ob("C03-R2", NP, "fires-the-first-supported-mapping-of-the-scan-and-leaves-the-loop", ok and argok, site=calls[0].span,
-                      detail=None if (ok and argok) else "call on a path with is_supported=%s, outcome %s" % ([s.b for s in sup], p.outcome[0]))
-            elif p.outcome == ("backedge", h):
-                ok = len(sup) == 1 and sup[0].b is False
-                ck.ob("C03-R2", NP, "unsupported-mapping-is-skipped-and-the-scan-continues", ok)
-        ck.ob("C03-R2", NP, "one-firing-path", fires == 1, detail="%d" % fires)
+            getcall = base[1][1]
+        ck.ob("C03-R2", NP, "group-looked-up-by-the-pressed-key", getcall is not None and mir.strip(getcall[2][1]) == k and isinstance(getcall[2][0], tuple)
+              and getcall[2][0][0] == "field" and getcall[2][0][2] == "mappings", detail=show(getcall)[:100] if getcall else show(base)[:100])
+        ck.ob("C03-R2", NP, "group-scanned-in-reverse(last-listed-first)", isinstance(sl.iter_term, tuple) and sl.iter_term[2] == "rev", detail="direction %s" % (sl.iter_term[2] if sl.iter_term else None))
+        sup = [(a, v) for a, v in sl.pred if isinstance(a, tuple) and a[0] == "call" and a[1] == MOD + "is_supported"]
+        argok = False
+        if len(sup) == 1 and sup[0][1] is True:
+            a = sup[0][0][2]
+            argok = mir.strip(a[0]) == T("field", sl.elem, "from") and list_of(a[1]) == "IP" and mir.strip(a[3]) == k
+        ck.ob("C03-R2", NP, "fires-the-first-supported-mapping-of-the-scan-and-leaves-the-loop", argok and sl.leaves_scan and sl.acts == 1, site=sl.site,
+              detail=None if (argok and sl.leaves_scan) else "predicate known for the chosen mapping: %s; leaves the scan: %s" % ([(show(a)[:60], v) for a, v in sl.pred][:3], sl.leaves_scan))
+        ck.ob("C03-R2", NP, "unsupported-mapping-is-skipped-and-the-scan-continues", sl.skips_quietly)
+        ck.ob("C03-R2", NP, "one-firing-path", sl.acts == 1, detail="%d" % sl.acts)
     callers = [c for c in ctx.callers_of(ANM) if "::tests::" not in c]
     ck.ob("C03-R2", "-", "add_new_mapping-has-one-caller", callers == [NP], detail=str(callers))
     ncalls = len([1 for i, n, t in np_.calls() if n == ANM])
